@@ -166,6 +166,36 @@ theorem retained_files_intact (as : List Act) (s : State) (h : run {} as = some 
   have hf := finv_run {} s as finv_init h
   exact ⟨load_of_done s hf c hc hd, hf.ck c hc, (hf.dn c hc hd).1, hf.wltc c hc⟩
 
+/-- **The WAL file a checkpoint saves is the log as it was at the `Checkpoint` call** — whatever happens between the
+call and the asynchronous save (`as₂`: flush commits that truncate the live log, memtable rotations, further writes,
+further checkpoints, other saves): a sealed writer's segments are immutable, the live writer never writes into
+them. The saved bytes are `Wal.encRecs` of these records, i.e. `Wal.Writer.save` of the writer sealed by the call. -/
+theorem saved_wal_is_log_at_checkpoint (as₁ as₂ : List Act) (id : Nat) (s₁ s₂ s s' : State)
+    (h1 : run {} as₁ = some s₁) (hc : step s₁ (.checkpoint id) = some s₂) (h2 : run s₂ as₂ = some s)
+    (hret : capture s₁ id ∈ s.ckpts) (hsave : step s (.saveWal id) = some s') :
+    assoc s'.files.wals s₁.wal.id = some s₁.wal.entries ∧
+    Wal.encRecs s₁.wal.entries = s₁.wal.save := by
+  have hf : FInv s := finv_run s₂ s as₂ (finv_step s₁ s₂ _ (finv_run {} s₁ as₁ finv_init h1) hc) h2
+  refine ⟨?_, rfl⟩
+  simp only [step] at hsave
+  split at hsave
+  · cases hsave
+  · split at hsave
+    · cases hsave
+    · rename_i t ht
+      simp only [Option.some.injEq] at hsave
+      subst hsave
+      have htm : t ∈ s.tasks := List.mem_of_find?_eq_some ht
+      have hp := List.find?_some ht
+      simp only [Bool.and_eq_true, beq_iff_eq] at hp
+      have hw : (capture s₁ id).walId = t.walId := hf.t3 t htm _ hret (by rw [hp.1]; rfl)
+      have hr : (capture s₁ id).recs = t.recs := hf.t1 t htm _ hret hw
+      have hw' : t.walId = s₁.wal.id := hw.symm
+      have hr' : t.recs = s₁.wal.entries := hr.symm
+      show assoc ((t.walId, t.recs) :: s.files.wals) s₁.wal.id = some s₁.wal.entries
+      rw [hw', hr']
+      exact assoc_cons_eq _ _ _
+
 /-- **A restored instance accepts writes normally**: in every reachable state — in particular right after `open`
 and anywhere along a chain of restores — a `Put`/`Delete` is possible, is visible to the next read of its key and
 changes no other key. -/
